@@ -216,7 +216,8 @@ def representation_variants(sub, root: tuple, tv: TV) -> List[Tuple[str, str, st
         elif base[0] == "ok" and got[0] == "ok":
             try:
                 same = got[2] == base[2]
-            except Exception:
+            except Exception as e:
+                out.append((f"representation-object:{label}", f"root:{rname}", first_union_ctx(tv), f"comparing the two structured objects raises {type(e).__name__}: {e}"))
                 same = True
             if not same:
                 out.append((f"representation-object:{label}", f"root:{rname}", first_union_ctx(tv), f"structured object differs from the one built from plain containers: {str(got[2])[:160]}"))
@@ -300,7 +301,7 @@ def _matrix_run(args) -> dict:
     r = subprocess.run([exe, "-B", *flags, script, cases_path, out_path], capture_output=True, text=True, timeout=1800,
                        env={"PYTHONPATH": pythonpath, "PYTHONHASHSEED": "0", "PYTHONDONTWRITEBYTECODE": "1", "PATH": "/usr/bin:/bin"})
     if r.returncode != 0 or not os.path.exists(out_path):
-        return {"exe": args[0], "error": (r.stderr or r.stdout).strip().splitlines()[-1:] or ["no output"]}
+        return {"exe": args[0], "error": (r.stderr or r.stdout).strip().splitlines()[-1:] or ["no output"], "trace": (r.stderr or r.stdout)[-3000:]}
     return {"exe": args[0], "outcomes": json.load(open(out_path))}
 
 
@@ -386,7 +387,13 @@ def interpreter_matrix(ctx: Ctx, k: int, sites_per_occurrence) -> dict:
         for r in results[1:]:
             ver = os.path.basename(os.path.dirname(os.path.dirname(r["exe"].split(" ")[0]))) + "".join(" " + f for f in r["exe"].split(" ")[1:])
             if "error" in r:
-                # cannot even import the package with these libraries: reported, not judged (the libraries are the venv's)
+                # cannot run at all: when the failure comes out of the package itself (a construct this interpreter does not
+                # have) that is the package's matter; when the venv's libraries do not import under it, the interpreter is
+                # reported as unusable and not judged
+                err = str(r.get("trace") or r["error"])
+                if "lsprotocol" in err and "site-packages" not in err.split("lsprotocol")[0][-200:]:
+                    ctx.finding(("package-does-not-run", "lsprotocol", "python" + ".".join(ver.split(" ")[0].split(".")[:2])), f"Python {ver}: {str(r['error'])[:200]}",
+                                {"interpreter": r["exe"]})
                 stats["unusable"].append([ver, str(r["error"])[:160]])
                 continue
             stats["interpreters"].append(ver)
@@ -396,6 +403,8 @@ def interpreter_matrix(ctx: Ctx, k: int, sites_per_occurrence) -> dict:
                     ctx.finding(("interpreter-differs", name, "python" + ".".join(ver.split(" ")[0].split(".")[:2]) + ver[len(ver.split(" ")[0]):]),
                                 f"{name} {json.dumps(j)[:160]}: Python {ver} gives {str(b)[:120]}, Python {sys.version_info.major}.{sys.version_info.minor} gives {str(a)[:120]}",
                                 {"type": name, "json": j, "interpreter": r["exe"]})
+        if not [v for v in stats["interpreters"] if not v.endswith(("-O", "-OO"))] and any(not e.startswith(sys.executable) for e in exes):
+            raise runner.HarnessError(f"no other interpreter could run the package: {stats['unusable'][:3]}")
         return stats
     finally:
         shutil.rmtree(d, ignore_errors=True)
